@@ -853,10 +853,7 @@ def reactor_problem(case, rng):
                 feats['epsilon'] = True
             if 'hydraulic_diameter' not in r and rng.random() < 0.5:
                 r['hydraulic_diameter'] = _r(rng.uniform(0.003, 0.02), 5)
-        # (grids need the CTD/UCTD flow split: the other flow-split modules
-        # do not take the `grid` argument and raise TypeError in any units)
-        if not t.get('use_low_fidelity_model') and rng.random() < 0.5 and \
-                t.get('corr_flowsplit', 'CTD') in ('CTD', 'UCTD'):
+        if not t.get('use_low_fidelity_model') and rng.random() < 0.5:
             lo, hi = rods_bounds(t, P['length'])
             if hi - lo > 0.05:
                 sg = {'axial_positions': sorted(
